@@ -17,7 +17,7 @@
    unpacked by the store keep the raw target of the archive; user-made links are allowed):
    the repaired store never follows a link below the working directory, so every mutation
    happens at the lexical location that was validated.  Inv is preserved by the store. *)
-From Oras Require Import Base.Prelude Model.FileConfine Proofs.FileConfine.
+From Oras Require Import Base.Prelude Model.FileConfine Proofs.FileConfine Proofs.FileConfineTaint.
 
 (* THE CONFINEMENT THEOREM, full.  taint f is a ghost field of the tree that no operation reads
    or changes: the inodes that files below the working directory may share with files outside when
@@ -370,3 +370,29 @@ Theorem C11_inv_any_tree :
     Inv wd (with_taint (seq 0 (nexti f)) f).
 Proof. exact inv_any_tree. Qed.
 Print Assumptions C11_inv_any_tree.
+
+(* the ghost field is never read: the run on a tree with any taint set t is the run on the tree
+   itself (same results, same tree, same book-keeping) with t put back - for every configuration *)
+Theorem C11_taint_never_read :
+  forall (t : list nat) (g : cfg) (pres : bool) (wd cwd : path) (s : store) (os : list pushop),
+    pushes g pres wd cwd (swt t s) os =
+    (swt t (fst (pushes g pres wd cwd s os)), snd (pushes g pres wd cwd s os)).
+Proof. exact pushes_t. Qed.
+Print Assumptions C11_taint_never_read.
+
+(* the full theorem without any ghost and without the no-shared-inode premise: ANY tree in which
+   the working directory is reached through real directories (inode numbers below the counter),
+   any number of pushes of any kind, from any process cwd: what an observer sees at a location
+   outside the working directory changes only if it is a file one of whose other names lay below
+   the working directory when the store was opened - and then it is still that file *)
+Theorem C11_confined_any_tree :
+  forall (wd : path) (pres : bool) (cwd : path) (os : list pushop) (s s' : store) (oks : list bool),
+    (forall q r, wd = q ++ r -> q <> [] -> lookup (st_fs s) q = Some NDir) ->
+    (forall p i, lookup (st_fs s) p = Some (NFile i) -> i < nexti (st_fs s)) ->
+    pushes cfg_fixed pres wd cwd s os = (s', oks) ->
+    forall p, inside wd p = false ->
+      view_at (st_fs s') p = view_at (st_fs s) p \/
+      exists i q, lookup (st_fs s) p = Some (NFile i) /\ lookup (st_fs s') p = Some (NFile i) /\
+                  inside wd q = true /\ lookup (st_fs s) q = Some (NFile i).
+Proof. exact pushes_confined_any_tree. Qed.
+Print Assumptions C11_confined_any_tree.
